@@ -335,6 +335,12 @@ class Runner:
         r["_viol"] = viol
         if r["status"] == "inconclusive":
             pass
+        elif viol and all(e["cls"] in ("unwind", "recursion") for e in mach):
+            # a failed check is a concrete counterexample whatever other paths exceed the bound
+            # (it is replayed natively before it is reported)
+            r["status"] = "fail"
+            if mach:
+                r["notes"].append("also beyond the bound on other paths: " + "; ".join(e["property"] for e in mach[:4]))
         elif mach:
             r["status"] = "inconclusive"
             r["notes"].append("bound/machinery failures: " + "; ".join(
